@@ -166,7 +166,7 @@ def run(model, col, tier):
     from ..report import Collector
 
     sub = Collector("C03")
-    c03.run(model, sub, "quick")
+    c03.run(model, sub, "quick", share=False)
     for ob in sub.obligations:
         if ob.rule == "R03.3":
             ob.rule = "R04.3"
